@@ -433,21 +433,20 @@ static void extremes()
 // moment of the call; a declaration that promises independence from memory would let the compiler reuse the earlier value
 static __attribute__((noinline)) void eval_twice(a_real *c, a_size n, a_trajpoly3 *t3, a_trajpoly5 *t5, a_trajpoly7 *t7, a_real x, a_real *out)
 {
-    for (int st = 0; st < 2; ++st)
-    {
-        a_real *o = out + st * 14;
-        o[0] = a_poly_eval(c, n, x); o[1] = a_poly_evar(c, n, x); o[2] = a_poly_eval_(c, c + n, x); o[3] = a_poly_evar_(c, c + n, x);
-        o[4] = a_trajpoly3_pos(t3, x); o[5] = a_trajpoly3_vel(t3, x); o[6] = a_trajpoly3_acc(t3, x);
-        o[7] = a_trajpoly5_pos(t5, x); o[8] = a_trajpoly5_vel(t5, x); o[9] = a_trajpoly5_acc(t5, x);
-        o[10] = a_trajpoly7_pos(t7, x); o[11] = a_trajpoly7_vel(t7, x); o[12] = a_trajpoly7_acc(t7, x); o[13] = a_trajpoly7_jer(t7, x);
-        if (st == 0)
-        {
-            c[0] += 3; c[n - 1] -= 2;
-            for (int i = 0; i < 4; ++i) { t3->c[i] += (a_real)(i + 1); }
-            for (int i = 0; i < 6; ++i) { t5->c[i] += (a_real)(i + 1); }
-            for (int i = 0; i < 8; ++i) { t7->c[i] += (a_real)(i + 1); }
-        }
-    }
+    // written out twice, not looped: both evaluations of each function are in one basic block, where a compiler that has been told
+    // the functions do not read memory merges them
+#define EVAL14(o) \
+    (o)[0] = a_poly_eval(c, n, x); (o)[1] = a_poly_evar(c, n, x); (o)[2] = a_poly_eval_(c, c + n, x); (o)[3] = a_poly_evar_(c, c + n, x); \
+    (o)[4] = a_trajpoly3_pos(t3, x); (o)[5] = a_trajpoly3_vel(t3, x); (o)[6] = a_trajpoly3_acc(t3, x); \
+    (o)[7] = a_trajpoly5_pos(t5, x); (o)[8] = a_trajpoly5_vel(t5, x); (o)[9] = a_trajpoly5_acc(t5, x); \
+    (o)[10] = a_trajpoly7_pos(t7, x); (o)[11] = a_trajpoly7_vel(t7, x); (o)[12] = a_trajpoly7_acc(t7, x); (o)[13] = a_trajpoly7_jer(t7, x)
+    EVAL14(out);
+    c[0] += 3; c[n - 1] -= 2;
+    t3->c[0] += 1; t3->c[1] += 2; t3->c[2] += 3; t3->c[3] += 4;
+    t5->c[0] += 1; t5->c[1] += 2; t5->c[2] += 3; t5->c[3] += 4; t5->c[4] += 5; t5->c[5] += 6;
+    t7->c[0] += 1; t7->c[1] += 2; t7->c[2] += 3; t7->c[3] += 4; t7->c[4] += 5; t7->c[5] += 6; t7->c[6] += 7; t7->c[7] += 8;
+    EVAL14(out + 14);
+#undef EVAL14
 }
 static void reread()
 {
